@@ -307,6 +307,19 @@ func drawFmtFile(t *rapid.T, w *World, maxLines int) FmtFile {
 				feat["size-boundary"] = true
 			}
 		}
+		if hasHeader && strings.Contains(content, nl+nl) && chance(t, 4, "manylines") {
+			// more than 64 KiB of short lines at nesting level 0 in front of the body
+			var fill []string
+			want := pick(t, []int{70000, 140000, 200000}, "manylines-size")
+			for k, total := 0, 0; total < want; k++ {
+				l := fmt.Sprintf("##! filler line %05d x%s", k, strings.Repeat("f", k%23))
+				fill = append(fill, l)
+				total += len(l) + 1
+			}
+			canon = append(fill, canon...)
+			content = strings.Replace(content, nl+nl, nl+nl+strings.Join(fill, nl)+nl, 1)
+			feat["more-than-64k-of-lines"] = true
+		}
 		for len(canon) > 0 && canon[len(canon)-1] == "" {
 			canon = canon[:len(canon)-1]
 		}
@@ -359,6 +372,12 @@ func drawFmtFile(t *rapid.T, w *World, maxLines int) FmtFile {
 		case "##!":
 			f.Canon = raHeader + "\n##!\n"
 		}
+	}
+	if chance(t, 4, "bom") {
+		// a byte order mark is a character of the first line for the compiler; the formatter has to leave it where it is
+		content = "\ufeff" + content
+		f.Canon = ""
+		feat["byte-order-mark"] = true
 	}
 	w.Put(f.Path, content)
 	f.Features = sortedKeys(feat)
